@@ -90,6 +90,36 @@ theorem negotiation_unsigned_variant_partial (b : UInt8) (h : b.toNat < 128) (pr
     simp [requestedVersionDefective, requestedVersion, int8OfByte, h]
   rw [this]; exact negotiation_eq [b] protocol k
 
+/-- The negotiated version is a function of (requested, protocol, key revision) ONLY: replacing the key's
+    expiry instant and signature bytes (in particular: an expired key, any clock) changes neither the
+    version nor the layout — the two payloads are the same bytes around the key record. -/
+theorem version_independent_of_expiry (requested : Int) (p : Player) (k : PlayerKey) (e' : Int) (s' : Bytes)
+    (hk : p.key = some k) :
+    findForwardingVersion requested p.protocol ({ p with key := some { k with expiry := e', sig := s' } } : Player).keyRev
+      = findForwardingVersion requested p.protocol p.keyRev ∧
+    ∀ secret address : Bytes, ∃ (pre post : Bytes) (keyed : Bool),
+      createForwardingData secret address p requested =
+        .ok (hmacSha256 secret (pre ++ (if keyed then writePlayerKey k else []) ++ post) ++
+             (pre ++ (if keyed then writePlayerKey k else []) ++ post)) ∧
+      createForwardingData secret address { p with key := some { k with expiry := e', sig := s' } } requested =
+        .ok (hmacSha256 secret (pre ++ (if keyed then writePlayerKey { k with expiry := e', sig := s' } else []) ++ post) ++
+             (pre ++ (if keyed then writePlayerKey { k with expiry := e', sig := s' } else []) ++ post)) := by
+  have hrev : ({ p with key := some { k with expiry := e', sig := s' } } : Player).keyRev = p.keyRev := by
+    simp [Player.keyRev, hk]
+  refine ⟨by rw [hrev], fun secret address => ?_⟩
+  simp only [createForwardingData, hrev, hk]
+  generalize findForwardingVersion requested p.protocol p.keyRev = v
+  by_cases hv : v ≥ vWithKey ∧ v < vLazySession
+  · refine ⟨writeVarInt v ++ writeBytes address ++ writeUUID p.id ++ writeBytes p.name ++ writeProperties p.props,
+      (if v ≥ vWithKeyV2 then
+        (if k.holder ≠ uuidNil then writeBool true ++ writeUUID k.holder else writeBool false) else []), true, ?_, ?_⟩
+    · simp [keySection, hv, forwardedBody, List.append_assoc]
+    · simp [keySection, hv, forwardedBody, List.append_assoc]
+  · refine ⟨writeVarInt v ++ writeBytes address ++ writeUUID p.id ++ writeBytes p.name ++ writeProperties p.props,
+      [], false, ?_, ?_⟩
+    · simp [keySection, hv, forwardedBody, List.append_assoc]
+    · simp [keySection, hv, forwardedBody, List.append_assoc]
+
 /-! ### B. payload -/
 
 /-- `CreateForwardingData` never fails (the "player auth key missing" branch is unreachable: versions 2
